@@ -10,7 +10,7 @@ from ref import codec as C
 PROPERTY = 'C14'
 LEVEL = 'exploration'
 RULE = ('a case = 1-2 responder stacks with 1-3 CAs each, every CA in one of the claim states not started / waiting for veto / operational by claim / '
-        'operational by bypass / cannot-claim / moved after a loss, plus a requester stack with an operational CA and one without an address; the '
+        'operational by bypass / cannot-claim / moved after a loss, plus a requester stack with an operational CA and three without an address (never started, waiting for veto, cannot-claim after a loss); the '
         'requester sends send_request(0, pgn, destination) for requested PGNs on the boundaries of the 18-bit space (0, EE00, EA00, EEFF, FFFF, 10000, '
         '1EE00, 1FFFF, 3FFFF, each PF boundary, data page 0/1 of the requested PGN) and random ones, to every held address, the global address and '
         'unowned addresses; the address-less CA requests the address-claim PGN from SA 254; a scripted node sends an ordinary request from SA 254; '
@@ -89,7 +89,20 @@ def run_case(case):
     req = W.ca(R, r_addr, name_value=C.name_value(identity_number=777), bypass=True)
     r2_pref = fresh(2, 120)
     req_noaddr = W.ca(R, r2_pref, name_value=C.name_value(identity_number=778), bypass=False)     # never started: no address
+    # a requester that had an address and lost it (cannot-claim), and one that is still waiting for its veto time
+    r3_pref = fresh(2, 120)
+    req_cc = W.ca(R, r3_pref, name_value=C.name_value(identity_number=779, arbitrary_address_capable=0), bypass=False)
+    sim.at(0.1, req_cc.start, 0.001)
+    sim.at(0.4, X.send, C.make_id(6, 0, C.PF_ADDRESS_CLAIM, 255, r3_pref), LOW)
+    r4_pref = fresh(130, 240)
+    req_wv = W.ca(R, r4_pref, name_value=C.name_value(identity_number=780), bypass=False)
+    sim.at(0.985, req_wv.start, 0.001)
     W.run(1.0)
+    if req_cc.state != ST.CANNOT_CLAIM or req_wv.state != ST.WAIT_VETO:
+        W.close()
+        return dict(violations=[], inconclusive='could not drive the address-less requesters into their states (%r, %r)' % (req_cc.state, req_wv.state),
+                    sig='setup', nontrivial=False, obs={}, sample=None)
+    noaddr_requesters = [req_noaddr, req_cc, req_wv]
     for c in cas:
         st = c['want']
         if st in ('normal', 'bypass'):
@@ -117,7 +130,7 @@ def run_case(case):
             rec = W.call('send_request', req.send_request, 0, pgn, d)
             src = r_addr
         elif kind == 'noaddr':
-            rec = W.call('send_request', req_noaddr.send_request, 0, pgn, d)
+            rec = W.call('send_request', noaddr_requesters[obs['requests_sent'] % 3].send_request, 0, pgn, d)
             src = 254
         else:
             X.send(C.make_id(6, 0, C.PF_REQUEST, d, 254), C.request_payload(pgn))
@@ -164,14 +177,14 @@ def run_case(case):
     for d in dests:
         for pgn in rng.sample(pgns, 12) + [0xEE00, 0xFECA]:
             one_request('ca', pgn, d)
-    for d in sorted(held)[:2] + [255]:
+    for d in sorted(held)[:2] + [255, 255, 255]:
         one_request('noaddr', 0xEE00, d)
         one_request('script', rng.choice([0xFECA, 0x1F004, 0xEF00]), d)
     # the address-less CA must not be able to request anything else
     rec = W.call('send_request', req_noaddr.send_request, 0, 0xFECA, 255)
     if rec['exc'] is None:
         viol.add('request_without_address', 'a CA without an address could send a request for an ordinary PGN', **tag)
-    if sim.now > 1.22 and any(c['want'] == 'wait_veto' for c in cas):
+    if sim.now > 1.22:
         W.close()
         return dict(violations=[], inconclusive='request phase outlasted the veto window (%.3f)' % sim.now, sig='setup', nontrivial=False, obs={}, sample=None)
     M.m_live(viol, W, layer)
